@@ -414,3 +414,69 @@ func (c *Ctx) flagDefaults(want map[string]flagSpec) {
 		}
 	}
 }
+
+// flagOwners: the switches that turn a protection off (skip verification, write in place, make a
+// server writable, trust any certificate) are each set by exactly the flag that is named after
+// them.  A second flag bound to the same variable - "--trust-insecure" stored into skipVerify -
+// switches the protection off for users who asked for something else.
+var flagOwnerTable = map[string][]string{
+	".skipVerify":      {"skip-verify-read"},
+	".skipVerifyWrite": {"skip-verify-write"},
+	".inPlace":         {"in-place"},
+	".writable":        {"writeable"},
+	".repair":          {"repair"},
+	".cacheRepair":     {"cache-repair"},
+	".uncompressed":    {"uncompressed"},
+	".trustInsecure":   {"trust-insecure"},
+	".auth":            {"authorization"},
+}
+
+func (c *Ctx) flagOwners() {
+	n := 0
+	for _, fn := range c.subjects() {
+		if fn.Pkg != c.CmdSSA {
+			continue
+		}
+		instrs(fn, func(_ *ssa.BasicBlock, _ int, ins ssa.Instruction) {
+			call, ok := ins.(*ssa.Call)
+			if !ok {
+				return
+			}
+			name := callee(call)
+			if !strings.Contains(name, "pflag.FlagSet).") || !strings.Contains(name, "Var") {
+				return
+			}
+			var fa *ssa.FieldAddr
+			flagName := ""
+			for _, a := range call.Call.Args[1:] {
+				if x, ok := a.(*ssa.FieldAddr); ok && fa == nil {
+					fa = x
+				}
+				if k, ok := a.(*ssa.Const); ok && k.Value != nil && k.Value.Kind() == constant.String && flagName == "" {
+					flagName = constant.StringVal(k.Value)
+				}
+			}
+			if fa == nil {
+				return
+			}
+			f := fieldOf(fa)
+			for suffix, owners := range flagOwnerTable {
+				if !strings.HasSuffix(f, suffix) {
+					continue
+				}
+				n++
+				okOwner := false
+				for _, o := range owners {
+					if o == flagName {
+						okOwner = true
+					}
+				}
+				c.verdict(okOwner, fmt.Sprintf("%s:--%s->%s", fnKey(fn), flagName, f), call.Pos(), "the protection switch is bound to its own flag",
+					fmt.Sprintf("flag --%s is stored into %s, the variable of --%s: giving --%s silently switches that protection", flagName, f, strings.Join(owners, "/"), flagName))
+			}
+		})
+	}
+	if n < 8 {
+		c.bad("flag-owners", token.NoPos, "only %d registrations of protection switches found", n)
+	}
+}
